@@ -14,6 +14,7 @@ CONSTANTS
   Disc = FALSE
   LockWrites = FALSE
   StopKA = FALSE
+  CloseAtomic = TRUE
   KeepSink = TRUE
 INVARIANT NoSplice
 CHECK_DEADLOCK FALSE
